@@ -12,6 +12,7 @@ op tokens
   L<o>            read o.v (loads / refreshes if expired)
   b n             session.begin() / session.begin_nested()
   C R X           session.commit() / rollback() / close()
+  Z0 Z1           session.autoflush = False / True (a `no_autoflush` block begins / ends)
   c<h> r<h> x<h>  handle h (a SessionTransaction returned by begin/begin_nested or
                   autobegun) .commit() / .rollback() / .close()
 
@@ -31,7 +32,7 @@ from harness import lib_txn
 
 
 class SWorld:
-    def __init__(self, expire_on_commit=True, tag="s"):
+    def __init__(self, expire_on_commit=True, tag="s", autoflush=True):
         import sqlalchemy as sa
         from sqlalchemy import orm
         from sqlalchemy import pool as sapool
@@ -62,7 +63,7 @@ class SWorld:
 
             SWorld._Item = Item
         self.Item = SWorld._Item
-        self.sess = orm.Session(self.engine, expire_on_commit=expire_on_commit)
+        self.sess = orm.Session(self.engine, expire_on_commit=expire_on_commit, autoflush=autoflush)
         self.objs = []
         self.handles = []
         self.warns = 0
@@ -141,6 +142,9 @@ class SWorld:
                 s.rollback()
             elif tok == "X":
                 s.close()
+            elif tok in ("Z0", "Z1"):
+                # what entering / leaving a `with session.no_autoflush:` block does
+                s.autoflush = tok == "Z1"
             elif t0 == "c":
                 self.handles[int(tok[1:])].commit()
             elif t0 == "r":
@@ -237,8 +241,8 @@ def parse_record(rec):
     return dict(zip(FIELDS, rec.split("/")))
 
 
-def run_ops(ops, expire_on_commit=True, tag="s"):
-    w = SWorld(expire_on_commit, tag)
+def run_ops(ops, expire_on_commit=True, tag="s", autoflush=True):
+    w = SWorld(expire_on_commit, tag, autoflush)
     try:
         return [w.step(t) for t in ops]
     finally:
